@@ -238,3 +238,74 @@ def params_walk(walk):
         import shutil
         shutil.rmtree(tmpdir, ignore_errors=True)
     return {'name': walk['name'], 'events': events}
+
+
+def prmfile_case(c):
+    """ one case of spec/PrmFiles.tla on the real entry points """
+    import pathlib
+    import ampycloud
+    from ampycloud import dynamic
+    from ampycloud.errors import AmpycloudWarning
+    ampycloud.reset_prms()
+    defaults = dynamic.get_default_prms()
+    tmpdir = tempfile.mkdtemp(prefix='verif_prmfile_')
+    rec = {'c': c, 'res': 'ok', 'exc': '', 'warnsuffix': False, 'warnunknown': False, 'msa_set': False, 'keysok': True,
+           'copied_identical': False, 'others_default': True}
+    try:
+        with warnings.catch_warnings(record=True) as ws:
+            warnings.simplefilter('always')
+            try:
+                if c['fn'] == 'set_prms':
+                    base = os.path.join(tmpdir, 'prms' + c['suffix'])
+                    if c['target'] == 'dir':
+                        os.mkdir(base)
+                    elif c['target'] == 'file':
+                        with open(base, 'w') as f:
+                            f.write({'valid': 'MSA: 4321\n', 'empty': '# MSA: 4321\n', 'unknownkey': 'MSA: 4321\nNOT_A_PRM: 1\n',
+                                     'nestedunknown': 'MSA: 4321\nSLICING_PRMS:\n    not_a_key: 2\n'}[c['content']])
+                    arg = {'str': base, 'path': pathlib.Path(base), 'int': 5, 'none': None, 'bytes': base.encode()}[c['arg']]
+                    ampycloud.set_prms(arg)
+                elif c['fn'] == 'copy_prm_file':
+                    loc = os.path.join(tmpdir, 'loc')
+                    if c['target'] == 'dir':
+                        os.mkdir(loc)
+                        if c['pre']:
+                            open(os.path.join(loc, f'ampycloud_{c["which"]}_prms.yml'), 'w').write('x')
+                    elif c['target'] == 'file':
+                        open(loc, 'w').write('x')
+                    ampycloud.copy_prm_file(save_loc=loc, which=c['which'])
+                    src = os.path.join(os.path.dirname(ampycloud.__file__), 'prms', f'ampycloud_{c["which"]}_prms.yml')
+                    rec['copied_identical'] = open(src, 'rb').read() == open(os.path.join(loc, f'ampycloud_{c["which"]}_prms.yml'), 'rb').read()
+                else:
+                    dynamic.AMPYCLOUD_PRMS['MSA'] = 999
+                    dynamic.AMPYCLOUD_PRMS['MIN_SEP_VALS'][0] = 1
+                    dynamic.AMPYCLOUD_PRMS['SLICING_PRMS']['dt_scale'] = 1
+                    arg = {'none': None, 'name': 'MSA', 'list': ['MSA', 'MIN_SEP_VALS', 'SLICING_PRMS'], 'bogus': 'BOGUS',
+                           'listbogus': ['MSA', 'BOGUS'], 'emptylist': []}[c['arg']]
+                    ampycloud.reset_prms(arg)
+            except Exception as e:
+                rec['res'], rec['exc'] = 'exc', type(e).__name__
+        rec['warnsuffix'] = any(issubclass(w.category, AmpycloudWarning) and 'expecting a .yml' in str(w.message) for w in ws)
+        rec['warnunknown'] = any(issubclass(w.category, AmpycloudWarning) and 'Key unknown' in str(w.message) for w in ws)
+        G = dynamic.AMPYCLOUD_PRMS
+        rec['msa_set'] = G.get('MSA') == 4321
+        rec['keysok'] = key_shape(G) == key_shape(defaults)
+        g2 = copy.deepcopy(G)
+        if c['fn'] == 'set_prms':
+            g2['MSA'] = defaults['MSA']
+            rec['others_default'] = g2 == defaults
+        elif c['fn'] == 'reset_prms':
+            exp = copy.deepcopy(defaults)
+            if c['arg'] in ('name', 'bogus', 'emptylist'):
+                exp['MIN_SEP_VALS'][0] = 1
+                exp['SLICING_PRMS']['dt_scale'] = 1
+            if c['arg'] in ('bogus', 'emptylist'):
+                exp['MSA'] = 999
+            rec['others_default'] = g2 == exp
+        else:
+            rec['others_default'] = g2 == defaults
+    finally:
+        ampycloud.reset_prms()
+        import shutil
+        shutil.rmtree(tmpdir, ignore_errors=True)
+    return rec
